@@ -50,17 +50,16 @@ def r_eq_form(ck: Checker) -> None:
     body = [ast.fix_missing_locations(Ren().visit(copy.deepcopy(st))) for st in strip_casts(f.node.body)]
     loop_info: dict[str, object] = {}
 
-    def hook(lp: ast.stmt, assign: dict) -> object:
-        if not isinstance(lp, ast.For):
-            raise Unsupported("while loop in _eq_fn", lp)
-        it = lp.iter
+    def analyse_positions(it: ast.expr, tg: ast.expr, test: ast.expr, where: ast.AST, differ_means_true: bool) -> bool:
+        """Checks the iteration source (zip of full traversals of both operands) and the per-position test.
+        ``differ_means_true``: the test is true when the two origins at a position differ."""
         if not (isinstance(it, ast.Call) and dotted(it.func) == "zip" and len(it.args) == 2):
-            ck.violation("R-FULLTRAV", f, lp, "_eq_fn compares the origins at every position: zip of full traversals of both operands",
+            ck.violation("R-FULLTRAV", f, where, "_eq_fn compares the origins at every position: zip of full traversals of both operands",
                          construct=f"_eq_fn loop iterates {norm(it)[:70]}")
-            loop_info["bad"] = True
-            return None
+            return False
         owners = [full_traversal(x) for x in it.args]
         what = "_eq_fn compares the origins at every position: zip of full traversals (dfs/bfs without prune/filter) of both operands"
+
         def sig(x: ast.expr) -> tuple:
             while isinstance(x, ast.Call) and dotted(x.func) in ("list", "tuple", "iter") and len(x.args) == 1:
                 x = x.args[0]
@@ -68,35 +67,37 @@ def r_eq_form(ck: Checker) -> None:
             return (x.func.attr, sorted((k.arg, norm(k.value)) for k in x.keywords))
 
         if sorted(x or "?" for x in owners) != ["other", "self"]:
-            ck.violation("R-FULLTRAV", f, lp, what, construct=f"_eq_fn zips {[norm(x)[:40] for x in it.args]}")
-            loop_info["bad"] = True
-            return None
+            ck.violation("R-FULLTRAV", f, where, what, construct=f"_eq_fn zips {[norm(x)[:40] for x in it.args]}")
+            return False
         if sig(it.args[0]) != sig(it.args[1]):
-            ck.violation("R-FULLTRAV", f, lp, what, construct="_eq_fn traverses the operands with different methods / arguments")
-            loop_info["bad"] = True
-            return None
-        ck.holds("R-FULLTRAV", f, lp, what, iter=norm(it))
-        tg = lp.target
+            ck.violation("R-FULLTRAV", f, where, what, construct="_eq_fn traverses the operands with different methods / arguments")
+            return False
+        ck.holds("R-FULLTRAV", f, where, what, iter=norm(it))
         if not (isinstance(tg, ast.Tuple) and len(tg.elts) == 2):
-            raise Unsupported("loop target of the position loop", lp)
+            raise Unsupported("target of the position iteration", where)
         t1, t2 = norm(tg.elts[0]), norm(tg.elts[1])
+        atoms = discover_atoms(test)
+        want = "eq(" + ",".join(sorted((f"{t1}.node.origin", f"{t2}.node.origin"))) + ")"
+        what2 = "the position test distinguishes exactly unequal origins at a position (value comparison)"
+        if atoms != [want]:
+            ck.violation("R-EQ-FORM", f, where, what2, construct=f"position test decides on {atoms}")
+            return False
+        rows_ = truth_table(test, {want: (True, False)})
+        if any(bool(v) != ((not a_[want]) if differ_means_true else a_[want]) for a_, v in rows_):
+            ck.violation("R-EQ-FORM", f, where, what2, construct=f"position test {norm(test)} has the wrong polarity")
+            return False
+        ck.holds("R-EQ-FORM", f, where, what2, evaluations=2)
+        return True
+
+    def hook(lp: ast.stmt, assign: dict) -> object:
+        if not isinstance(lp, ast.For):
+            raise Unsupported("while loop in _eq_fn", lp)
         if not (len(lp.body) == 1 and isinstance(lp.body[0], ast.If) and not lp.body[0].orelse and len(lp.body[0].body) == 1
                 and isinstance(lp.body[0].body[0], ast.Return)):
             raise Unsupported("body of the position loop is not `if <origins differ>: return False`", lp)
-        test = lp.body[0].test
-        atoms = discover_atoms(test)
-        want = "eq(" + ",".join(sorted((f"{t1}.node.origin", f"{t2}.node.origin"))) + ")"
-        what2 = "the position loop returns False exactly when the two origins at a position are unequal (value comparison)"
-        if atoms != [want]:
-            ck.violation("R-EQ-FORM", f, lp.body[0], what2, construct=f"position test decides on {atoms}")
+        if not analyse_positions(lp.iter, lp.target, lp.body[0].test, lp, True):
             loop_info["bad"] = True
             return None
-        rows = truth_table(test, {want: (True, False)})
-        if any(bool(v) != (not a_[want]) for a_, v in rows):
-            ck.violation("R-EQ-FORM", f, lp.body[0], what2, construct=f"position test {norm(test)} has the wrong polarity")
-            loop_info["bad"] = True
-            return None
-        ck.holds("R-EQ-FORM", f, lp.body[0], what2, evaluations=2)
         loop_info["seen"] = True
         if "LOOP:all_positions_equal" not in assign:
             raise NeedAtom("LOOP:all_positions_equal", lp)
@@ -104,7 +105,26 @@ def r_eq_form(ck: Checker) -> None:
             return leave("return", lp.body[0].body[0].value)
         return None
 
-    rows = bool_function(body, loop_hook=hook)
+    def call_hook(c: ast.Call, assign: dict) -> object:
+        """any(<origins differ> for a, b in zip(..)) / all(<origins equal> for ...) : the same abstraction as the loop."""
+        name = dotted(c.func)
+        if name not in ("any", "all") or len(c.args) != 1 or not isinstance(c.args[0], (ast.GeneratorExp, ast.ListComp)):
+            return NotImplemented
+        g = c.args[0]
+        if len(g.generators) != 1 or g.generators[0].ifs:
+            return NotImplemented
+        if not (isinstance(g.generators[0].iter, ast.Call) and dotted(g.generators[0].iter.func) == "zip"):
+            return NotImplemented
+        if not analyse_positions(g.generators[0].iter, g.generators[0].target, g.elt, c, name == "any"):
+            loop_info["bad"] = True
+            return name == "all"
+        loop_info["seen"] = True
+        if "LOOP:all_positions_equal" not in assign:
+            raise NeedAtom("LOOP:all_positions_equal", c)
+        alleq = assign["LOOP:all_positions_equal"]
+        return (not alleq) if name == "any" else alleq
+
+    rows = bool_function(body, loop_hook=hook, call_hook=call_hook)
     if loop_info.get("bad"):
         return
     cid = "eq(other.content_id,self.content_id)"
